@@ -1580,6 +1580,11 @@ func (d *DotGit) PackRefs() (err error) {
 	if err = d.addRefsFromRefDir(&refs, seen); err != nil {
 		return err
 	}
+	// Symbolic references cannot be represented in packed-refs: they
+	// are kept loose (as git does).
+	refs = slices.DeleteFunc(refs, func(r *plumbing.Reference) bool {
+		return r.Type() != plumbing.HashReference
+	})
 	if len(refs) == 0 {
 		// Nothing to do!
 		return nil
